@@ -73,12 +73,13 @@ type Focus struct {
 	Boundary   int            // percent of cases allowed to draw numeric boundary values (known finding trigger)
 	PrefixProv int            // percent preference for prefix-related provider addresses
 	PreludePct int            // percent of cases that open with a productive prelude
+	RestartW   int            // weight of the zero-height restart action (0 = never)
 	Only20Pct  int            // percent of cases restricted to 20-byte addresses everywhere (avoids a listed finding's trigger)
 	only20     bool           // drawn per case
 }
 
 func FocusFor(prop string, tier string) Focus {
-	f := Focus{Prop: prop, MaxSteps: 32, W: map[string]int{}, WrongSign: 15, ModSvcPct: 15, Boundary: 0, PrefixProv: 20, PreludePct: 50}
+	f := Focus{Prop: prop, MaxSteps: 32, W: map[string]int{}, WrongSign: 15, ModSvcPct: 15, Boundary: 0, PrefixProv: 20, PreludePct: 50, RestartW: 1}
 	if tier == "thorough" {
 		f.MaxSteps = 70
 	}
@@ -110,12 +111,19 @@ func FocusFor(prop string, tier string) Focus {
 		if prop == "C11" {
 			f.Boundary = 10
 		}
+		if prop == "C10" {
+			// C10 quantifies over messages, batch starts and expiries; a zero-height restart cancels the
+			// batch in flight and lets a restarted one-shot context issue its batch again, which the
+			// property neither forbids nor covers
+			f.RestartW = 0
+		}
 	case "C12":
 		mul(4, KModCreate)
 		mul(2, KRespond, KModPause, KModStart, KModKill, KModUpdate)
 	case "C13":
-		mul(3, KWithdraw)
-		mul(2, KSetWithdr, KRespond, KCall)
+		mul(4, KWithdraw)
+		mul(3, KRespond)
+		mul(2, KSetWithdr, KCall)
 		f.PrefixProv = 50
 		f.PreludePct = 75
 		f.ModSvcPct = 30
@@ -520,7 +528,7 @@ func (g *GenState) ctxConsumer(id string) string {
 // ---------------------------------------------------------------------------------------------
 // action kinds and weights
 
-var kindOrder = []string{KEndBlock, KDefine, KBind, KCall, KRespond, KUpdateBind, KDisable, KEnable, KRefundDep, KSetWithdr,
+var kindOrder = []string{KRestart, KEndBlock, KDefine, KBind, KCall, KRespond, KUpdateBind, KDisable, KEnable, KRefundDep, KSetWithdr,
 	KWithdraw, KPause, KStart, KKill, KUpdateCtx, KModCreate, KModPause, KModStart, KModKill, KModUpdate, KTx}
 
 func (g *GenState) weights() []int {
@@ -570,6 +578,9 @@ func (g *GenState) weights() []int {
 		w[KModPause], w[KModStart], w[KModKill], w[KModUpdate] = 1, 1, 1, 1
 	}
 	w[KTx] = 1
+	if nBinds > 0 && g.F.RestartW > 0 {
+		w[KRestart] = g.F.RestartW
+	}
 	out := make([]int, len(kindOrder))
 	for i, k := range kindOrder {
 		m := 1
@@ -607,6 +618,7 @@ func (g *GenState) GenPrelude(t *rapid.T) []Action {
 	if !pct(t, "prelude", g.F.PreludePct) {
 		return nil
 	}
+	variant := pick(t, "pre_variant", []string{"standard", "standard", "standard", "refund", "contention", "lastbatch", "standard", "module"})
 	svc := pick(t, "pre_svc", ServiceNames)
 	acts := []Action{{Kind: KDefine, Signer: pick(t, "pre_author", Signers), Service: svc, Schemas: SchemasOK, Desc: "d"}}
 	n := pick(t, "pre_nprov", []int{1, 2, 3, 2})
@@ -615,10 +627,14 @@ func (g *GenState) GenPrelude(t *rapid.T) []Action {
 	if !g.F.only20 && pct(t, "pre_prefix_provider", g.F.PrefixProv) {
 		pool = append([]string{NonSigners[0], NonSigners[2]}, pool...) // prefixes of signer 0 / signer 1
 	}
+	if pct(t, "pre_reverse_pool", 30) {
+		for i, j := 0, len(pool)-1; i < j; i, j = i+1, j-1 {
+			pool[i], pool[j] = pool[j], pool[i]
+		}
+	}
 	var provs []string
 	qos := uint64(1)
-	for i := 0; i < n && i < len(pool); i++ {
-		p := pool[i]
+	bind := func(p string) {
 		if pct(t, "pre_other_owner", 30) {
 			owner = pick(t, "pre_owner2", Signers[:3])
 		}
@@ -634,6 +650,9 @@ func (g *GenState) GenPrelude(t *rapid.T) []Action {
 		acts = append(acts, Action{Kind: KBind, Signer: owner, Service: svc, Provider: p, Deposit: i64(dep), Pricing: pricing, QoS: qos, Options: "{}"})
 		provs = append(provs, p)
 	}
+	for i := 0; i < n && i < len(pool); i++ {
+		bind(pool[i])
+	}
 	if pct(t, "pre_withdraw_addr", 30) {
 		acts = append(acts, Action{Kind: KSetWithdr, Signer: owner, Withdraw: pick(t, "pre_waddr", AllAddrs())})
 	}
@@ -641,18 +660,70 @@ func (g *GenState) GenPrelude(t *rapid.T) []Action {
 	if timeout > g.Cfg.MaxTimeout {
 		timeout = g.Cfg.MaxTimeout
 	}
-	call := Action{Kind: KCall, Signer: pick(t, "pre_consumer", Signers), Service: svc, Providers: provs, Input: InputOK,
-		FeeCap: i64(pick(t, "pre_cap", []int64{1e9, 1000, 10})), Timeout: timeout}
-	if pct(t, "pre_module", 20) {
+	mkCall := func(consumer string, providers []string) Action {
+		call := Action{Kind: KCall, Signer: consumer, Service: svc, Providers: providers, Input: InputOK,
+			FeeCap: i64(pick(t, "pre_cap", []int64{1e9, 1000, 10})), Timeout: timeout}
+		if pct(t, "pre_repeated", 55) {
+			call.Repeated = true
+			call.Freq = uint64(timeout) + uint64(pick(t, "pre_freq_extra", []int{0, 1, 3}))
+			call.Total = pick(t, "pre_total", []int64{2, 3, -1, 1})
+		}
+		return call
+	}
+	endBlock := func() Action { return Action{Kind: KEndBlock, DeltaNs: pick(t, "pre_delta", []int64{5e9, 1, 1e9})} }
+	switch variant {
+	case "refund":
+		// disable, let exactly (or 1ns less / more than) the waiting period pass, try to refund
+		last := acts[len(acts)-1]
+		for i := len(acts) - 1; i >= 0; i-- {
+			if acts[i].Kind == KBind {
+				last = acts[i]
+				break
+			}
+		}
+		if pct(t, "pre_slash_first", 40) {
+			acts = append(acts, mkCall(pick(t, "pre_consumer", Signers), provs), endBlock())
+		}
+		acts = append(acts, Action{Kind: KDisable, Signer: last.Signer, Service: svc, Provider: last.Provider})
+		wait := g.Cfg.ArbitrationNs + g.Cfg.ComplaintNs + pick(t, "pre_wait_off", []int64{0, -1, 1, 5e9})
+		if wait <= 0 {
+			wait = 1
+		}
+		acts = append(acts, Action{Kind: KEndBlock, DeltaNs: wait},
+			Action{Kind: KRefundDep, Signer: g.signerFor(t, last.Signer), Service: svc, Provider: last.Provider})
+		if pct(t, "pre_refund_again", 50) {
+			acts = append(acts, endBlock(), Action{Kind: KRefundDep, Signer: last.Signer, Service: svc, Provider: last.Provider})
+		}
+	case "contention":
+		// one consumer with limited funds starts several contexts in the same block
+		consumer := pick(t, "pre_poor_consumer", Signers[2:])
+		k := pick(t, "pre_ncalls", []int{2, 3, 4})
+		for i := 0; i < k; i++ {
+			acts = append(acts, mkCall(consumer, provs))
+		}
+		acts = append(acts, endBlock())
+	case "lastbatch":
+		// pause during the last batch, start again after it expired
+		consumer := pick(t, "pre_consumer", Signers)
+		call := mkCall(consumer, provs)
+		call.Repeated, call.Total = true, pick(t, "pre_total_small", []int64{1, 2})
+		if call.Freq < uint64(timeout) {
+			call.Freq = uint64(timeout)
+		}
+		acts = append(acts, call, endBlock())
+	case "module":
+		call := mkCall(pick(t, "pre_consumer", Signers), provs)
 		call.Kind = KModCreate
-		call.Threshold = uint32(pick(t, "pre_threshold", []int{1, len(provs)}))
+		call.Threshold = uint32(pick(t, "pre_threshold", []int{1, len(provs), 2}))
+		acts = append(acts, call, endBlock())
+	default:
+		call := mkCall(pick(t, "pre_consumer", Signers), provs)
+		if pct(t, "pre_module", 15) {
+			call.Kind = KModCreate
+			call.Threshold = uint32(pick(t, "pre_threshold", []int{1, len(provs)}))
+		}
+		acts = append(acts, call, endBlock())
 	}
-	if pct(t, "pre_repeated", 55) {
-		call.Repeated = true
-		call.Freq = uint64(timeout) + uint64(pick(t, "pre_freq_extra", []int{0, 1, 3}))
-		call.Total = pick(t, "pre_total", []int64{2, 3, -1, 1})
-	}
-	acts = append(acts, call, Action{Kind: KEndBlock, DeltaNs: pick(t, "pre_delta", []int64{5e9, 1, 1e9})})
 	return acts
 }
 
@@ -745,6 +816,8 @@ func (g *GenState) genOfKind(t *rapid.T, kind string) Action {
 	switch kind {
 	case KEndBlock:
 		return Action{Kind: KEndBlock, DeltaNs: g.genDelta(t)}
+	case KRestart:
+		return Action{Kind: KRestart}
 	case KDefine:
 		name := pick(t, "def_name", ServiceNames)
 		if pct(t, "odd_name", 3) {
@@ -926,7 +999,7 @@ func (g *GenState) genOfKind(t *rapid.T, kind string) Action {
 		n := pick(t, "tx_n", []int{2, 2, 3})
 		a := Action{Kind: KTx}
 		for i := 0; i < n; i++ {
-			k := g.genKind(t, map[string]bool{KTx: true, KEndBlock: true})
+			k := g.genKind(t, map[string]bool{KTx: true, KEndBlock: true, KRestart: true})
 			a.Msgs = append(a.Msgs, g.genOfKind(t, k))
 		}
 		return a
